@@ -436,6 +436,10 @@ func c05Run(c *fw.C, caseID string) {
 	if !compare(F, "follower-restarted-cold", true) {
 		return
 	}
+	F.RestartFresh()
+	if !compare(F, "follower-restarted-consensus-cache-deleted", true) {
+		return
+	}
 	G := simnet.Open("G", base+"/G", world.NewGenesis(), nil)
 	defer G.Stop()
 	if err := G.SyncFrom(P, 128); err != nil {
